@@ -28,5 +28,17 @@ package connectors
 //@   at-call ssh.Dial [with-the-own-configuration] arg2 == c.config
 //@ func (*ServerConnection).session
 //@   callers-only (*ServerConnection).dial
+// (C06) When a session ends, however it ends, the connector shuts its handler
+// down itself: for a mapreduce handler that Shutdown is the blocking flush of
+// the server's last partial result into the global result (the shutdown the
+// server asks for with '.syn close connection' goes to the embedded base
+// handler and flushes nothing).
 //@ func (*ServerConnection).handle
 //@   callers-only (*ServerConnection).session
+//@   ghost-init g_handlerShut == 0
+//@   at-call Handler.Shutdown effect g_handlerShut == g_handlerShut + 1
+//@   ensures [handler-shut-down-when-the-session-ends] implies(isnil(result), g_handlerShut == 1)
+//@ func (*Serverless).handle
+//@   ghost-init g_handlerShut == 0
+//@   at-call Handler.Shutdown effect g_handlerShut == g_handlerShut + 1
+//@   ensures [handler-shut-down-when-the-session-ends] implies(isnil(result), g_handlerShut == 1)
